@@ -648,6 +648,15 @@ impl<T: Config> P2PSession<T> {
                 .expect("Missing local input while calling advance_frame().");
             let actual_frame = self.sync_layer.add_local_input(handle, player_input);
             if actual_frame != NULL_FRAME {
+                // The first input of a player lands on frame `input delay`; the queue holds the
+                // default input for the frames before it. Report those frames as well: if local
+                // players have different delays, the frames a remote peer is never told about are
+                // filled with defaults for ALL players of this peer on its side.
+                if self.local_connect_status[handle].last_frame == NULL_FRAME {
+                    for frame in 0..actual_frame {
+                        self.queue_outgoing_local_input(handle, PlayerInput::blank_input(frame));
+                    }
+                }
                 let queued_input = PlayerInput::new(actual_frame, player_input.input);
                 self.local_connect_status[handle].last_frame = queued_input.frame;
                 self.queue_outgoing_local_input(handle, queued_input);
